@@ -225,10 +225,13 @@ pub enum Obs {
     E400,
     Err { status: u16 },
     Panic,
+    /// a 200 answer to a HEAD request read off the wire: the echo body is not sent
+    FoundHead,
 }
 
 pub fn g_obs(o: &Obs) -> String {
     match o {
+        Obs::FoundHead => "OFoundHead".to_string(),
         Obs::Found { id, vars, ctype, maxbytes } => format!(
             "(OFound {} {} {} {})",
             g_str(id),
@@ -415,17 +418,19 @@ pub fn exec_live(case: &Case) -> Option<Line> {
                     None => vec![],
                 };
                 let req = request(m, p, &hdrs, None);
-                let mut r = conn.send(&req).ok().and_then(|_| conn.read_response(false).ok());
+                let head = m.eq_ignore_ascii_case("HEAD");
+                let mut r = conn.send(&req).ok().and_then(|_| conn.read_response(head).ok());
                 if r.is_none() {
                     // the server may have closed the connection after an error
                     if let Ok(c2) = Conn::open(addr) {
                         conn = c2;
-                        r = conn.send(&req).ok().and_then(|_| conn.read_response(false).ok());
+                        r = conn.send(&req).ok().and_then(|_| conn.read_response(head).ok());
                     }
                 }
                 let o = match r {
                     None => Obs::Panic,
                     Some(r) => match r.status {
+                        200 if head => Obs::FoundHead,
                         200 => match serde_json::from_slice::<Echo>(&r.body) {
                             Ok(e) => Obs::Found {
                                 id: e.op,
@@ -569,10 +574,12 @@ pub fn exec_pipeline(case: &PipeCase) -> Option<Line> {
                 req.extend_from_slice(b"\r\n");
             }
             req.extend_from_slice(b"\r\n");
-            let resp = roundtrip(addr, &req, false).ok();
+            let head = r.method.eq_ignore_ascii_case("HEAD");
+            let resp = roundtrip(addr, &req, head).ok();
             obs.push(match resp {
                 None => Obs::Panic,
                 Some(r) => match r.status {
+                    200 if head => Obs::FoundHead,
                     200 => match serde_json::from_slice::<Echo>(&r.body) {
                         Ok(e) => Obs::Found {
                             id: e.op,
@@ -1006,6 +1013,10 @@ pub fn gen_case(rng: &mut Rng, conflict_rate: usize, max_eps: usize, npaths: usi
         }
     }
     methods.push("PATCH".into());
+    // HEAD and OPTIONS are never answered on behalf of another method: a path
+    // served for GET only answers them 405 with Allow: GET
+    methods.push("HEAD".into());
+    methods.push("OPTIONS".into());
     if rng.chance(1, 2) {
         methods.push("put".into());
     }
